@@ -1,11 +1,5 @@
 package zz_verifsim
 
-import (
-	"io"
-	"testing"
-	"testing/synctest"
-)
+import "testing/synctest"
 
 func synctestWait() { synctest.Wait() }
-
-func runCmdCacheWorld(t *testing.T, p *Plan, want []string, logw io.Writer) *Result  { return &Result{Seed: p.Seed, Harness: "not built"} }
